@@ -55,6 +55,9 @@ pub struct BatchCfg {
     pub components: Value,
     /// Extra args passed to the worker (variant tags etc.)
     pub extra_env: Vec<(String, String)>,
+    /// Whether a run whose process dies (abort, stack overflow, timeout) violates the property.
+    /// (Not for C16: a crash that does not depend on the hash seed is C14's subject.)
+    pub crashes_are_violations: bool,
 }
 
 #[derive(Debug, Clone, Serialize, Deserialize)]
@@ -562,7 +565,15 @@ pub fn run_batch(cfg: BatchCfg) -> BatchReport {
     // ---- crash confirmation: re-execute alone in a fresh worker, recording the tape ----
     let crashes = std::mem::take(&mut agg.crashes);
     let mut crash_classes_seen = BTreeSet::new();
+    let mut crashed_runs: Vec<Value> = Vec::new();
     for (idx, how, note) in crashes {
+        if !cfg.crashes_are_violations {
+            agg.evaluations += 1;
+            if crashed_runs.len() < 20 {
+                crashed_runs.push(json!({"run_index": idx, "how": how, "stage": note}));
+            }
+            continue;
+        }
         let class_guess = crash_class(&how, &note);
         if crash_classes_seen.contains(&class_guess) && crash_classes_seen.len() > 0 {
             // same class already confirmed once in this batch; count it but do not re-run
@@ -784,6 +795,7 @@ pub fn run_batch(cfg: BatchCfg) -> BatchReport {
         "worker_processes": cfg.workers,
         "violation_classes": violation_summaries,
         "known_findings_reproduced": known_lines.len(),
+        "crashed_runs_not_judged": crashed_runs,
     });
     if let Some(s) = sim_time_s {
         coverage["simulated_time_s"] = json!(s);
